@@ -62,6 +62,8 @@ if add:
     ours=ours[:i].rstrip('\n')+'\n'+'\n'.join(add)+'\n\n'+ours[i:]
     open('/verif/harness/Cargo.toml','w').write(ours); print('added harness deps:', add)
 PY
+# never keep a workspace path in the harness manifest
+sed -i 's#path = "/work/[A-Za-z0-9]*/repo"#path = "/repo"#' harness/Cargo.toml
 # the lock file is regenerated from /repo's lock (offline resolution adds the harness-only crates)
 cp /repo/Cargo.lock harness/Cargo.lock && (cd harness && cargo build --offline 2>&1 | tail -1)
 if grep -rIl '^<<<<<<< \|^>>>>>>> ' --exclude-dir=.git --exclude-dir=target --exclude-dir=work --exclude-dir=build . ; then echo 'conflict markers remain in the files above'; exit 1; fi
